@@ -104,6 +104,8 @@ class Exec(object):
         self.spec_mode = False
         self.result = None
         self.loop_stack = []
+        self.in_comprehension = False
+        self.elem_sets = {}          # list term -> set term with the same elements (ghost), when known by construction
 
     # ------------------------------------------------------------------ obligations / assumptions
     def _wrap(self, p, f):
@@ -280,12 +282,25 @@ class Exec(object):
         return None
 
     def e_Compare(self, p, e):
+        lz = self.len_zero_test(p, e)
+        if lz is not None: return SV(BOOL, lz)
         left = self.ev(p, e.left); res = []
         for op, c in zip(e.ops, e.comparators):
             right = self.ev(p, c)
             res.append(self.compare(p, op, left, right, e))
             left = right
         return SV(BOOL, And(res) if len(res) > 1 else res[0])
+
+    def len_zero_test(self, p, e):
+        """len(X) == 0 / != 0 / > 0 on a set: emptiness (no cardinality reasoning needed)"""
+        if len(e.ops) != 1: return None
+        l, r, op = e.left, e.comparators[0], e.ops[0]
+        if isinstance(l, ast.Call) and isinstance(l.func, ast.Name) and l.func.id == 'len' and isinstance(r, ast.Constant) and r.value == 0:
+            v = self.ev(p, l.args[0])
+            if isinstance(v, Gen) or v.t.kind != 'set': return None
+            if isinstance(op, ast.Eq): return S.is_empty(v)
+            if isinstance(op, (ast.NotEq, ast.Gt)): return S.nonempty(v)
+        return None
 
     def compare(self, p, op, a, b, e):
         if isinstance(op, (ast.In, ast.NotIn)):
@@ -315,6 +330,8 @@ class Exec(object):
             x = self.coerce(x, c.t.args[0]); return Select(c.z, x.z)
         if c.t.kind == 'map':
             x = self.coerce(x, c.t.args[0]); return Select(map_dom(c), x.z)
+        if c.t.kind == 'list' and str(c.z) in self.elem_sets:
+            es = self.elem_sets[str(c.z)]; return Select(es.z, self.coerce(x, es.t.args[0]).z)
         if c.t.kind == 'list':
             i = fresh_z('i', z3.IntSort())
             return Exists([i], And(0 <= i, i < list_len(c), self.equal(SV(c.t.args[0], Select(list_arr(c), i)), x)))
@@ -325,6 +342,7 @@ class Exec(object):
         if t.kind == 'opt' and v.t == t.args[0]: return SV(t, parts(t)[2](v.z))
         if t.kind == 'opt' and v.t == NONE: return SV(t, parts(t)[1])
         if t == WORD and v.t == ATOM: return SV(WORD, Word.snoc(Word.nil, v.z))
+        if t.kind == 'map' and v.t.kind == 'map' and t.args[:2] == v.t.args[:2]: return SV(t, v.z)      # dict / defaultdict: same content
         raise Unsupported('cannot use %s as %s' % (v.t, t))
 
     def e_BinOp(self, p, e):
@@ -387,6 +405,7 @@ class Exec(object):
             return SV(m.t.args[1], Select(map_val(m), k.z))
         # defaultdict: value if present, default otherwise.  The insertion of the default into the map itself is
         # not modelled (it does not change the abstract view); see DESIGN 2.2 "defaultdict".
+        if dflt == 'set': return SV(m.t.args[1], Select(S.view(m), k.z))
         return SV(m.t.args[1], If(Select(map_dom(m), k.z), Select(map_val(m), k.z), self.dflt_value(m.t).z))
 
     def dflt_value(self, mt):
@@ -492,6 +511,7 @@ class Exec(object):
         v = self.ev(p, e)
         if isinstance(v, Gen): raise Unsupported('iteration over a generator')
         if v.t.kind == 'set': return ('set', v)
+        if v.t.kind == 'list' and self.in_comprehension and str(v.z) in self.elem_sets: return ('set', self.elem_sets[str(v.z)])
         if v.t.kind == 'list': return ('list', v)
         if v.t == WORD: return ('word', v)
         if v.t.kind == 'map': return ('keys', v)
@@ -501,6 +521,8 @@ class Exec(object):
         if name == 'product':
             rep = [k for k in e.keywords if k.arg == 'repeat']
             srcs = [self.ev(p, a) for a in e.args]
+            if self.in_comprehension:       # element sets suffice when the consumer is a set / dict builder or a quantifier
+                srcs = [(self.elem_sets.get(str(s_.z)) or self.set_of_list(p, s_)) if (not isinstance(s_, Gen) and s_.t.kind == 'list') else s_ for s_ in srcs]
             if rep:
                 n = rep[0].value
                 if not (isinstance(n, ast.Constant) and isinstance(n.value, int)):
@@ -531,6 +553,7 @@ class Exec(object):
         """ListComp / SetComp / GeneratorExp -> Gen"""
         vars_, guards, pushed = [], [], 0
         saved = dict(p.env); ordered = None
+        saved_ic = self.in_comprehension; self.in_comprehension = True
         try:
             for gi, g in enumerate(e.generators):
                 vs, guard, upd, ordinfo = self.iter_binders(p, g.target, g.iter)
@@ -546,6 +569,7 @@ class Exec(object):
             else:
                 elem = self.ev(p, e.elt)
         finally:
+            self.in_comprehension = saved_ic
             for _ in range(pushed): self.binders.pop()
             p.env.clear(); p.env.update(saved)
         return Gen(vars_, guards, elem, ordered)
@@ -593,9 +617,11 @@ class Exec(object):
             return r
         # unordered source or filtered: a list whose element set is the comprehension's
         y = fresh_z('y', sort_of(el.t)); i = fresh_z('i', z3.IntSort())
-        grd = And(g.guards) if g.guards else BoolVal(True)
+        es = self.set_of_gen(p, g)
         self.assume(p, list_len(r) >= 0)
-        self.assume(p, ForAll([y], Exists([i], And(0 <= i, i < list_len(r), Select(list_arr(r), i) == y)) == Exists(g.vars, And(grd, y == el.z))))
+        self.assume(p, ForAll([y], Exists([i], And(0 <= i, i < list_len(r), Select(list_arr(r), i) == y)) == Select(es.z, y)))
+        self.assume(p, ForAll([i], Implies(And(0 <= i, i < list_len(r)), Select(es.z, Select(list_arr(r), i)))))
+        self.elem_sets[str(r.z)] = es
         return r
 
     # ------------------------------------------------------------------ calls
@@ -729,7 +755,13 @@ class Exec(object):
         return r
 
     def b_list(self, p, e):
-        v = self.ev(p, e.args[0])
+        a0 = e.args[0]
+        if isinstance(a0, ast.Call) and isinstance(a0.func, ast.Attribute) and isinstance(a0.func.value, ast.Name) and a0.func.value.id == 'itertools':
+            it = self.iterable(p, a0)
+            if it[0] != 'set': raise Unsupported('list(itertools...)')
+            v = it[1]
+        else:
+            v = self.ev(p, a0)
         if isinstance(v, Gen): return self.list_of_gen(p, v)
         if v.t.kind == 'list': return v
         if v.t.kind == 'set':       # some duplicate-free enumeration of the set: every order is covered
@@ -737,6 +769,7 @@ class Exec(object):
             self.assume(p, list_len(r) == S.card(v).z)
             self.assume(p, ForAll([y], Select(v.z, y) == Exists([i], And(0 <= i, i < list_len(r), Select(list_arr(r), i) == y))))
             self.assume(p, ForAll([i, j], Implies(And(0 <= i, i < j, j < list_len(r)), Select(list_arr(r), i) != Select(list_arr(r), j))))
+            self.elem_sets[str(r.z)] = v
             return r
         raise Unsupported('list(%s)' % v.t)
 
@@ -792,6 +825,12 @@ class Exec(object):
 
     def b_min(self, p, e):
         a, b = [self.ev(p, x) for x in e.args]; return SV(INT, If(a.z <= b.z, a.z, b.z))
+
+    def b_dict(self, p, e):
+        if len(e.args) == 1:
+            v = self.ev(p, e.args[0])
+            if v.t.kind == 'map': return SV(MAP(v.t.args[0], v.t.args[1]), v.z) if v.t.args[2] is None else v
+        raise Unsupported('dict(...)')
 
     def b_print(self, p, e): return SV(NONE, parts(NONE)[1])
     def b_log(self, p, e): return SV(NONE, parts(NONE)[1])     # gambatools.logging.log: no effect on results (arguments are pure printers)
@@ -1144,6 +1183,10 @@ class Exec(object):
         return self.run_block([a], st.body) + self.run_block([b], st.orelse)
 
     def s_Return(self, p, st):
+        for i, a_ in enumerate(self.c.pre_return_asserts):
+            g = self.spec(p, a_)
+            self.oblig(p, 'assert-before-return#%d@%d' % (i + 1, st.lineno), 'assert', g, st.lineno)
+            p.pc.append(g)
         v = self.ev(p, st.value) if st.value is not None else SV(NONE, parts(NONE)[1])
         if isinstance(v, Gen): raise Unsupported('returning a generator')
         self.post(p, v, st.lineno); return []
